@@ -226,7 +226,11 @@ package runtime
 //@ ensures [C16:readerror] calls(FL) == 0 && calls(RD) > 0 && ret(RD,calls(RD)-1,1) != nil && calls(RD) > csvSkip(opts) ==> result == ret(RD,calls(RD)-1,1)
 //@ ensures [C16:writeerror] calls(FL) == 0 && calls(WR) > 0 && ret(WR,calls(WR)-1,0) != nil ==> result == ret(WR,calls(WR)-1,0)
 //@ ensures [C16:errorsurfaces] (exists n int :: called(WR,n) && ret(WR,n,0) != nil) ==> result != nil && calls(FL) == 0
-//@ loop 0 invariant calls(WR) == 0 && calls(FL) == 0 && calls(ER) == 0 && calls(RD) >= 0
+// end of input ends the copy (flush, the writer's error is the answer; while skipping: nothing to deliver); any other read error is returned
+//@ ensures [C16:eof] calls(FL) == 1 ==> calls(IS) == 1 && ret(IS,0,0) && arg(IS,0,0) == ret(RD,calls(RD)-1,1)
+//@ ensures [C16:noteof] calls(FL) == 0 && calls(RD) > 0 && ret(RD,calls(RD)-1,1) != nil ==> calls(IS) == 1 && arg(IS,0,0) == ret(RD,calls(RD)-1,1) && (calls(RD) > csvSkip(opts) ==> !ret(IS,0,0)) && (calls(RD) <= csvSkip(opts) ==> (ret(IS,0,0) ==> result == nil) && (!ret(IS,0,0) ==> result == ret(RD,calls(RD)-1,1)))
+//@ loop 0 invariant calls(WR) == 0 && calls(FL) == 0 && calls(ER) == 0 && calls(RD) >= 0 && calls(IS) == 0
+//@ loop 1 invariant calls(IS) == 0
 //@ loop 0 invariant opts0.skippedLines > 0 ==> opts.skippedLines >= 0 && calls(RD) == opts0.skippedLines - opts.skippedLines
 //@ loop 0 invariant opts0.skippedLines <= 0 ==> calls(RD) == 0 && opts.skippedLines == opts0.skippedLines
 //@ loop 0 invariant forall n int :: called(RD,n) ==> 0 <= n && n < calls(RD) && recv(RD,n) == csvReader && ret(RD,n,1) == nil
